@@ -150,6 +150,17 @@ TEXT = {
                 "in-memory object store hook; git.",
         "technique": "Lean 4 proof (refinement target ChainSrv with its invariant) + correspondence check of five backends against it",
     },
+    "C09": {
+        "level": "Lean theorems over a small-step machine of the object-store protocol (any number of clients, one store request per step, arbitrary interleaving, "
+                 "weak listings, clients stopping anywhere): every acknowledged version stays on the chain; every served version is a chain element served as the child of its "
+                 "chain predecessor with exactly the submitted bytes, so leftovers of lost races are never served; the chain has no duplicates, ends in `latest`, and a parent "
+                 "has at most one child on it. Tied to the code by an executable step checker proved sound w.r.t. the machine (check_sound, C09_trace_reachable): the real "
+                 "CloudServer's request log under random single-request schedules must be accepted event by event, its return values must match the machine's ghost state, "
+                 "and the final store must equal the machine's.",
+        "design_ref": "DESIGN.md §5 C09",
+        "note": "Trusted: Lean kernel + standard axioms; the in-memory object store hook and its log; the trace parser of the Lean driver (not verified; the checker it feeds is).",
+        "technique": "Lean 4 proof (13-clause invariant by induction over an interleaving semantics) + trace-refinement correspondence check with a verified step checker",
+    },
     "C11": {
         "level": "Lean theorems: an interrupted add_version leaves either the state of a completed call or the state before it, never a version a completed "
                  "call would have refused; after ANY history of completed and interrupted requests the versions still form one linear chain (so every C08 law keeps "
